@@ -1,7 +1,7 @@
 (* Entry points extracted for the correspondence check of C14 (unique c14_ prefix).  The curve parameters are
    explicit arguments (secp256k1 or a small curve, chosen by the harness). *)
 Require Import Bits.Lib.Result Bits.Lib.Bytes Bits.Model.Ecmath Bits.Model.Keys Bits.Model.Sec1 Bits.Model.Wif
-  Bits.Model.Asn1 Bits.Model.Pem.
+  Bits.Model.Asn1 Bits.Model.Pem Bits.Model.CliKeys.
 Definition c14_pubkey := pubkey.
 Definition c14_point := sec1_point.
 Definition c14_is_point := is_point.
@@ -19,3 +19,4 @@ Definition c14_pem_encode_key := pem_encode_key.
 Definition c14_der_encode_key := der_encode_key.
 Definition c14_pem_decode_key := pem_decode_key.
 Definition c14_pubkey_from_pem := pubkey_from_pem.
+Definition c14_cli_pubkey := cli_pubkey.
